@@ -317,17 +317,27 @@ class C18(Profile):
         if cf and hasattr(target, 'filters') or (cf and hasattr(getattr(target, 'source', None), 'filters')):
             flt_target = target.filters if hasattr(target, 'filters') else target.source.filters
             fobj = s.Filter(cf[0], cf[1], cf[2])
-            if fobj not in flt_target._filters:
-                flt_target.add(fobj)
+            if fobj not in list(flt_target):
+                if op.get('j', 0) % 4 == 3:
+                    # history: attached, detached and attached again before the read
+                    call(flt_target.add, fobj)
+                    call(flt_target.remove, fobj)
+                a = call(flt_target.add, fobj)
+                if not a.ok or fobj not in list(flt_target):
+                    raise Violation('attach', 'C18.attach/added-filter-not-in-set', dict(filter=repr(fobj), outcome=a.tag))
             else:
                 fobj = None
             ctrip = [tuple(cf)]
             world.probe('composite_filter_attached')
+        failed = True
         try:
             self.do_read(sw, world, op, kind, target, mems, union, sid, e, k, j, ctrip)
+            failed = False
         finally:
             if flt_target is not None and fobj is not None:
-                flt_target.remove(fobj)
+                r = call(flt_target.remove, fobj)
+                if not failed and (not r.ok or fobj in list(flt_target)):
+                    raise Violation('attach', 'C18.detach/removed-filter-still-in-set', dict(filter=repr(fobj), outcome=r.tag))
 
     def do_read(self, sw, world, op, kind, target, mems, union, sid, e, k, j, ctrip):
         s = self.stix2
